@@ -1,6 +1,6 @@
 (* C16: text edits sent to the editor reproduce the intended text exactly.
    Model: Model/Diff.v (diff.go + format.go), specification: Model/LspApply.v (LSP 3.17). *)
-From Regal Require Import Model.LspApply Proofs.DiffSound Proofs.DiffTotal.
+From Regal Require Import Model.LspApply Model.FormatFlow Proofs.DiffSound Proofs.DiffTotal Proofs.FormatFlow.
 Open Scope Z_scope.
 
 (* For ALL pairs of byte strings: if ComputeEdits (the model) returns an edit list, then applying
@@ -85,3 +85,90 @@ Proof. vm_compute. reflexivity. Qed.
 Example compute_edits_sound_nonvacuous_cr :
   exists es, compute_edits [97; 13; 98; 13; 10; 99]%N [97; 13; 99; 10]%N = Ok es /\ (length es >= 2)%nat.
 Proof. eexists. split; [vm_compute; reflexivity | simpl; lia]. Qed.
+
+(* ---------------------------------------------------------------- the server-level producers of edits
+   (Model/FormatFlow.v = the glue of internal/lsp/server.go around ComputeEdits).
+
+   [content cache] is the text the server holds for the document, which is the text the client
+   sent in didOpen / didChange, i.e. the text the client will apply the edits to (that the two
+   agree is C15's subject; the correspondence of this check observes it on every case).
+   [reproduces es client intended] := lsp_apply es client = Some intended /\ edits_ordered es = true
+                                      /\ forallb (edit_in_doc client) es = true. *)
+
+(* textDocument/formatting, for every formatter (oracle), template (oracle), disk state, workspace
+   position and cache state: whenever the handler answers with edits, applying them to the text
+   the client holds gives the text the server intends; that text is the formatter's output
+   (server's copy unchanged), or the template, which the server then also stores - and it
+   templates only when the client's text is EMPTY. *)
+Theorem formatting_reproduces_intended :
+  forall (k : formatter_kind) (in_root ignored : bool) (disk template : option str)
+         (formatter : str -> oracle_out) (cache : option str)
+         (es : list text_edit) (intended : str) (stored : option str),
+  formatting_flow k in_root ignored disk template formatter cache = FEdits es intended stored ->
+  reproduces es (content cache) intended /\
+  (stored = None \/ stored = Some intended) /\
+  (stored = Some intended -> content cache = [] /\ template = Some intended) /\
+  (stored = None -> formatter (content cache) = ONew intended).
+Proof. exact formatting_reproduces_intended_proof. Qed.
+Print Assumptions formatting_reproduces_intended.
+
+(* workspace/applyEdit sent for a fix command (fixEditParams): the edits turn the cached text
+   into the fix's output *)
+Theorem fix_reproduces_intended :
+  forall (fixf : str -> oracle_out) (cache : option str)
+         (es : list text_edit) (intended : str) (stored : option str),
+  fix_flow fixf cache = FEdits es intended stored ->
+  exists c, cache = Some c /\ reproduces es c intended /\ stored = None /\ fixf c = ONew intended.
+Proof. exact fix_reproduces_intended_proof. Qed.
+Print Assumptions fix_reproduces_intended.
+
+(* workspace/applyEdit sent by the template worker for a new file: the edits are computed from ""
+   and that IS the client's text, because the worker refuses every document whose cached content
+   is not "" *)
+Theorem template_worker_reproduces_intended :
+  forall (in_root : bool) (disk template : option str) (cache : option str)
+         (es : list text_edit) (intended : str) (stored : option str),
+  template_worker_flow in_root disk template cache = FEdits es intended stored ->
+  reproduces es (content cache) intended /\ stored = Some intended /\ template = Some intended /\
+  cache = Some [].
+Proof. exact template_worker_reproduces_intended_proof. Qed.
+Print Assumptions template_worker_reproduces_intended.
+
+(* none of the flows can fail inside ComputeEdits *)
+Theorem server_flows_total :
+  (forall k in_root ignored disk template formatter cache,
+     formatting_flow k in_root ignored disk template formatter cache <> FBroken) /\
+  (forall fixf cache, fix_flow fixf cache <> FBroken) /\
+  (forall in_root disk template cache, template_worker_flow in_root disk template cache <> FBroken).
+Proof.
+  split; [exact formatting_flow_not_broken | split; [exact fix_flow_not_broken | exact template_worker_flow_not_broken]].
+Qed.
+Print Assumptions server_flows_total.
+
+(* why `before` must be the client's text (regression for the class "edits computed from another
+   text than the one the editor holds"): edits computed from "" for a document of two blank lines *)
+Theorem edits_from_other_before_refuted :
+  exists (client used_before after : str) (es : list text_edit),
+    edits_from_other used_before after = FEdits es after None /\
+    lsp_apply es client <> Some after.
+Proof.
+  exists [10; 10]%N, []%N, [112; 10; 10]%N. eexists.
+  split; [vm_compute; reflexivity | vm_compute; discriminate].
+Qed.
+Print Assumptions edits_from_other_before_refuted.
+
+(* non-vacuity: an empty document in a sub-directory is templated; a non-empty one is formatted *)
+Example formatting_flow_templates_empty :
+  exists es, formatting_flow KOpaFmt false false None (Some [112; 10; 10]%N) (fun _ => OErr) (Some []) =
+             FEdits es [112; 10; 10]%N (Some [112; 10; 10]%N) /\ (length es >= 1)%nat.
+Proof. eexists. split; [vm_compute; reflexivity | simpl; lia]. Qed.
+
+Example formatting_flow_formats_nonempty :
+  exists es, formatting_flow KOpaFmt false false None None (fun _ => ONew [112; 10]%N) (Some [112; 32; 10]%N) =
+             FEdits es [112; 10]%N None /\ (length es >= 1)%nat.
+Proof. eexists. split; [vm_compute; reflexivity | simpl; lia]. Qed.
+
+(* a blank (white space only) document is NOT templated: the formatter's verdict decides *)
+Example formatting_flow_blank_is_not_empty :
+  formatting_flow KOpaFmt false false None (Some [112; 10; 10]%N) (fun _ => OErr) (Some [10; 10]%N) = FNull.
+Proof. vm_compute. reflexivity. Qed.
